@@ -107,10 +107,10 @@ impl Property for C09 {
             }
         }
         s2.push(g.gen_extract().to_string());
-        case.cfg.insert("s1".into(), json!(s1.len()));
-        case.cfg.insert("bad".into(), json!(bad.len()));
         let mut ops = s1;
+        ops.push("(@bad)".into());
         ops.extend(bad);
+        ops.push("(@s2)".into());
         ops.extend(s2);
         case.ops = ops;
         let fails: Vec<u64> = (0..cfg_rng.below(3)).map(|_| cfg_rng.below(6) as u64).collect();
@@ -120,8 +120,17 @@ impl Property for C09 {
     fn check(&self, case: &Case) -> CaseResult {
         let mut res = CaseResult::new();
         let mode = mode_of(case);
-        let n1 = (case.cfg_u64("s1", 0) as usize).min(case.ops.len());
-        let nb = (case.cfg_u64("bad", 1) as usize).min(case.ops.len() - n1);
+        // sections are delimited by marker operations so that shrinking keeps them meaningful
+        let i_bad = case.ops.iter().position(|o| o == "(@bad)");
+        let i_s2 = case.ops.iter().position(|o| o == "(@s2)");
+        let (Some(i_bad), Some(i_s2)) = (i_bad, i_s2) else {
+            res.inconclusive("section markers missing");
+            return res;
+        };
+        if i_s2 < i_bad {
+            res.inconclusive("section markers out of order");
+            return res;
+        }
         let fail_at: Vec<u64> = case
             .cfg
             .get("flaky_fail_at")
@@ -138,8 +147,9 @@ impl Property for C09 {
         // with: S1; bad; S2      without: S1; S2
         let mut with = mk(&fail_at);
         let mut without = mk(&fail_at);
-        let (s1, rest) = case.ops.split_at(n1);
-        let (bad, s2) = rest.split_at(nb);
+        let s1 = &case.ops[..i_bad];
+        let bad = &case.ops[i_bad + 1..i_s2];
+        let s2 = &case.ops[i_s2 + 1..];
         for op in s1 {
             let a = with.run(op);
             let b = without.run(op);
